@@ -161,9 +161,9 @@ var ruleAddenda = map[string]string{
 	"C02": "Sign == RFC 8032 for EVERY message length 0..8320 (and windows at 16384/32768/65536) under pure, a 1-byte and a 255-byte context; 17 argument coincidences (message = key, seed, signature, dom2 label, context, ...). Very long messages as C01; held results (70 signatures and keys kept, each used as the caller's buffer). Context x message plane (1..255 x 0..320; thorough 0..1100); caller buffers refilled between signing calls.",
 	"C04": "The accepted twin (S mod L) as the neighbour of every S >= L entry, with and without a failing equation elsewhere in the chunk. Compensating pairs (S_i + d, S_j - d) at every pair of positions of batches of 4..9 and the chunk-edge pairs of 64..133. (c') S + kL under 16 KiB .. 70000-byte messages.",
 	"C12": "Keys constructed from chosen conversion results (one non-zero byte, k / p-k, 2^k+-1, all ones with one hole). Held conversion results.",
-	"C01": "variant dimension of 6 (incl. 255-byte contexts and ph under the ctx variant's context); dimension Rrel (signature carries (-x,y) / (x,-y) of the point the equation yields); honest inputs signed by the model. Dense message lengths: every length 0..8320 and windows at 16384/32768/65536 x {pure, 1-byte ctx, 255-byte ctx} x {honest, +1, +32, -1, first/last byte} single and in a batch of 5 with one-byte neighbours. Very long messages: multiples of 2^18 up to 8 MiB (thorough 24 MiB), inner bytes changed around MiB boundaries. Crossed histories: K1 honest, then K1 xor mask (every bit, every value of bytes 0 and 31) signed with K1's scalar over the new bytes.",
+	"C01": "variant dimension of 6 (incl. 255-byte contexts and ph under the ctx variant's context); dimension Rrel (signature carries (-x,y) / (x,-y) of the point the equation yields); honest inputs signed by the model. Dense message lengths: every length 0..8320 and windows at 16384/32768/65536 x {pure, 1-byte ctx, 255-byte ctx} x {honest, +1, +32, -1, first/last byte} single and in a batch of 5 with one-byte neighbours. Very long messages: multiples of 2^18 up to 8 MiB (thorough 24 MiB), inner bytes changed around MiB boundaries. Crossed histories: K1 honest, then K1 xor mask (every bit, every value of bytes 0 and 31) signed with K1's scalar over the new bytes. Context x message plane for verification (1..255 x 0..320 under ctx; 0..255 under ph), default configuration.",
 	"C03": "S = (r + h a) mod L evaluated as sign() does on all triples of a scalar boundary alphabet, per configuration; later-chunk positions. Calls in flight: k = 1..6, 8 batches of own signatures parked in their entropy readers while others run. Variant sequences sharing a context.",
-	"C05": "the heterogeneous batch shapes also in default mode (neighbours stay accepted, the entry gets the default verdict). Dense message lengths (every 4th) as C01.",
+	"C05": "the heterogeneous batch shapes also in default mode (neighbours stay accepted, the entry gets the default verdict). Dense message lengths (every 4th) as C01. Context x message plane for verification (1..255 x 0..320 under ctx; 0..255 under ph), default configuration.",
 	"C06": "arguments handed over as consecutive slices of one buffer (two calls out of three) with a changed-byte check, result vector overwritten after each call; level 1e: entropy sources answering with 1/16/17/100/1000 bytes per call x bad positions in every chunk; homogeneous chunks; runs of one bad entry; cross-variant and model-signed wrong-length-digest entries. Level big (255..1025 entries, thorough 65537; bad entries where 8/16-bit indices wrap); level dense-len (every prefix length P: signature over P bytes with a P+1 / P+32 byte message among one-byte neighbours); level near-dup (a bad entry as the spoilt copy of its honest neighbour, 5 forms, with/without forced fallback). Level crossed (16 mixed-up readings of neighbouring entries); level compensating (pairs and triples whose errors cancel under equal randomisers); level env (every GOMAXPROCS 1..64, 96, 128, 256; k = 0..6, 8 calls in flight). Levels long-msg, huge (2^22 + 68 entries); calls in flight up to 257; cpus units (taskset 3, 5, 6, 12). Level two-defects (signature kind x key kind on one entry).",
 	"C07": "digest-length sweep in batches of 70 and 140 at the first/last positions of every batched chunk; hash selectors 0..24, 64, 200, 2^31; homogeneous batches. Refusal x content: 8 refused option sets x 11 signature/key contents x 3 APIs. Re-entrant reader: inner verification and signature under another context with a fresh Options value or a struct copy of the used template. Many-contexts (17000 / 70000 distinct contexts between two uses of one).",
 	"C09": "runs of one small-order entry across a chunk boundary; small-order entry before/after a malformed entry (key31, sig63, msg63) in the first and a later chunk. Buffer-reuse section (14 torsion encodings written into the buffer an honest key / R was verified from). Fold look-alikes of every torsion encoding in an earlier chunk. An invalid entry at position j with small-order R / key at j+64 and j+128.",
